@@ -23,7 +23,7 @@ RULE = (
     "are counted, trivial"
 )
 ASSUMPTIONS = [
-    "keys the encoder documents as the caller's responsibility and never checks (wavelet_index_ho, dwt_depth_ho, matrix values, qindex, total_slice_bytes, slice_size_scaler) always admit the configured value (DESIGN section 7 item 3); the video-format values themselves (dimensions, rates, ratios, clean area, signal range, colour indices) may be restricted to the configured value or to another one, because the encoder's header search does check them",
+    "keys the encoder documents as the caller's responsibility and never checks (matrix values, qindex, total_slice_bytes, slice_size_scaler) always admit the configured value (DESIGN section 7 item 3); wavelet_index_ho and dwt_depth_ho may be restricted since round 4: the encoder has a dedicated error for an extended transform the level does not permit and now (fix e0d0f53, DESIGN D10) raises it for the values as well as for the flags; the video-format values themselves (dimensions, rates, ratios, clean area, signal range, colour indices) may be restricted to the configured value or to another one, because the encoder's header search does check them",
     "a rejection caused by a major_version restriction *below* the version the configuration intrinsically needs is a caller conflict, counted and not judged",
 ]
 CASE_TIMEOUT_S = 120
